@@ -125,6 +125,42 @@ def _check_weighted(g, o, directed, bad, label):
                 bad.append((label + "reported shortest path cost is not the cost of the route", {"s": s, "t": t, "route": route, "got": cost, "want": wd[s][t]}, kind))
 
 
+def _check_orders(cls, o, directed, bad, label):
+    """query histories on one object: each answer is a function of the graph alone"""
+    n = o["n"]
+    wd = {int(k): _fn(v) for k, v in o["wdist"].items()}
+    hd = {int(k): _fn(v) for k, v in o["dist"].items()}
+
+    def want(tbl):
+        return np.array([[np.inf if tbl[s][t] < 0 else float(tbl[s][t]) for t in range(n)] for s in range(n)])
+
+    for order in o["orders"]:
+        g = _weighted(cls, o, directed)
+        for step, q in enumerate(order):
+            tbl = wd if q == "w" else hd
+            D = np.asarray(g.find_all_shortest_paths(unweighted=(q == "u"))[0], dtype=float)
+            if D.shape != (n, n) or not np.array_equal(D, want(tbl)):
+                bad.append((label + "all-pairs %s distances depend on the queries asked before" % ("weighted" if q == "w" else "hop-count"),
+                            {"order": order, "step": step}, None))
+                break
+            stop = False
+            for s in range(n):
+                for t in range(n):
+                    if s == t or tbl[s][t] < 0:
+                        continue
+                    route = [int(x) for x in g.find_shortest_path(s, t, unweighted=(q == "u"))[0]]
+                    c = sum(_wt(a, b) for a, b in zip(route[:-1], route[1:])) if q == "w" else len(route) - 1
+                    if c != tbl[s][t]:
+                        bad.append((label + "%s shortest route depends on the queries asked before" % ("weighted" if q == "w" else "hop-count"),
+                                    {"order": order, "step": step, "s": s, "t": t, "route": route}, None))
+                        stop = True
+                        break
+                if stop:
+                    break
+            if stop:
+                break
+
+
 def _check_masks(pg, o, directed, bad, label, cls_name):
     n = o["n"]
     P = _pts(n)
@@ -168,6 +204,7 @@ def check_ug(o):
     if len(E):
         wg = _weighted(ms.UndirectedGraph, o, False)
         _check_weighted(wg, o, False, bad, "UndirectedGraph (weighted): ")
+        _check_orders(ms.UndirectedGraph, o, False, bad, "UndirectedGraph (weighted): ")
         if o["mst"] >= 0:
             for root in range(n):
                 t = wg.minimum_spanning_tree(root)
@@ -215,6 +252,7 @@ def check_dg(o):
         if not np.array_equal(rl, P[ee[:, 1]] - P[ee[:, 0]]):
             bad.append(("relative_locations wrong", {}, None))
         _check_weighted(_weighted(ms.DirectedGraph, o, True), o, True, bad, "DirectedGraph (weighted): ")
+        _check_orders(ms.DirectedGraph, o, True, bad, "DirectedGraph (weighted): ")
     return bad
 
 
